@@ -68,6 +68,9 @@ def create_table(probabilities, states):
         scaled_probabilities = thetas / sum_probabilities
         alias_method = AliasMethod(scaled_probabilities, states)
         return J, alias_method
+    elif nb_last_elements == 0:
+        # every 256*p_i is an integer: the table alone realises the law, there is no residual to sample
+        return J, None
     else:
         logging.error("there is 0 probability associated to the current set of states")
         raise ValueError("probabilities is an array of 0s")
